@@ -420,7 +420,7 @@ def plan_scenarios(fx, exe, out_path, payloads=(0,)):
             for pos in (n, 1, 2):
                 seq += ["pr %d %d" % (r, pos), "pa %d %d %d schedule 0" % (r, b, a), "ps %d 0" % r]
             seq += ["pr %d %d" % (r, n), "pr %d %d" % (r, n - 1), "pa %d %d %d change 0" % (r, a, a), "pc %d" % r]
-            seq += ["pa %d %d %d change 0" % (r, a, b)] * (cfg["taskcap"] + 1 if cfg.get("taskcap") else 6)
+            seq += ["pa %d %d %d change 0" % (r, a, b)] * min(cfg["taskcap"] + 1, 20)      # (sweep masks are 32-bit: plans stay short)
             seq += ["ps %d 5" % r, "pa %d %d %d change 0" % (r, b, b), "pc %d" % r, "del"]
             if not run(seq):
                 ex.close()
